@@ -10,7 +10,7 @@
 use super::*;
 use std::sync::atomic::{AtomicPtr, AtomicUsize, Ordering};
 
-#[path = "/verif/kani/libc_model.rs"]
+#[path = "libc_model.rs"]
 pub mod lm;
 
 // ---- ghost trace ---------------------------------------------------------------------------
